@@ -1,17 +1,382 @@
-//! stub: component `resize` (resizable shared memory; to be written)
+//! C15 (resize part): the dynamically growing data segment.
+//! Drives the real `resizable_shared_memory::dynamic::{DynamicMemory, DynamicView}` over the pool
+//! allocator (posix shared memory by default, `local` = process-local flavour) with one owner and two
+//! views, the way `port/details/data_segment.rs` uses them (publisher: allocate / deallocate_bucket,
+//! loaned sample: grow; subscriber: register_and_translate_offset / unregister_offset).
+//!
+//! Ops (one per line):
+//!   new <static|bestfit|pow2> <size> <align> <chunks> [posix|local]   -> ok | err:alloc:<e>
+//!   alloc <label> <size> <align>          -> ok:<seg>:<off> | err:<e> | dup
+//!   write <label> <byte>                  -> ok | none           (fills the chunk through the owner's pointer)
+//!   dealloc <label>                       -> ok | none
+//!   grow <label> <size> <align> <front|back> -> ok:<seg>:<off> | err:<e> | none
+//!   view_register <view> <label>          -> ok | err:<e> | dup | none
+//!   view_read <view> <label>              -> ok:<first byte seen through the view> | none
+//!   view_unregister <view> <label>        -> ok | none
+//!   segments                              -> <owner number_of_active_segments>
+//!   view_segments <view>                  -> <view number_of_active_segments>
+//!
+//! Independent oracles (checked after EVERY op, never consulting the model):
+//!   * a fresh allocation is aligned as requested (owner address and the view's translated address),
+//!     lies inside the payload of its segment (payload size obtained by opening the segment a second time),
+//!     sits on a bucket boundary of that segment, and does not overlap any other live allocation
+//!     (absolute addresses, so also across segments);
+//!   * every live chunk that was written keeps its bytes at its old location (owner's pointer), and
+//!     every chunk registered in a view shows exactly these bytes through the view's pointer, until it is
+//!     unregistered / deallocated / rewritten;
+//!   * `grow` keeps the old content at the documented place.
 use crate::common::*;
+use core::alloc::Layout;
+use core::fmt::Debug;
+use iceoryx2_bb_elementary::allocation_strategy::AllocationStrategy;
+use iceoryx2_bb_elementary_traits::allocator::*;
+use iceoryx2_bb_posix::file::AccessMode;
+use iceoryx2_bb_container::semantic_string::SemanticString;
+use iceoryx2_bb_system_types::file_name::FileName;
+use iceoryx2_cal::named_concept::*;
+use iceoryx2_cal::resizable_shared_memory::dynamic::{DynamicMemory, DynamicView};
+use iceoryx2_cal::resizable_shared_memory::*;
+use iceoryx2_cal::shared_memory::{PointerOffset, SharedMemory, SharedMemoryBuilder, SharedMemoryForPoolAllocator, ShmPointer};
+use iceoryx2_cal::shm_allocator::pool_allocator::PoolAllocator;
+use std::collections::{BTreeMap, HashMap};
+use std::sync::atomic::{AtomicU64, Ordering};
 
-pub struct ResizeComp;
+type PShm = iceoryx2_cal::shared_memory::posix::Memory<PoolAllocator>;
+type LShm = iceoryx2_cal::shared_memory::process_local::Memory<PoolAllocator>;
+
+static COUNTER: AtomicU64 = AtomicU64::new(0);
+const NVIEWS: usize = 2;
+
+struct Chunk {
+    ptr: ShmPointer,
+    size: usize,
+    align: usize,
+    live: bool,
+    fill: Option<u8>, // Some(b): all `size` bytes are expected to be b
+    generation: u64,
+}
+struct Reg {
+    ptr: *const u8,
+    off: PointerOffset,
+    generation: u64,
+}
+
+struct World<Shm: SharedMemoryForPoolAllocator>
+where
+    Shm::Builder: Debug,
+{
+    // field order = drop order: views first, then the owner (which removes the segments)
+    views: Vec<DynamicView<PoolAllocator, Shm>>,
+    mem: DynamicMemory<PoolAllocator, Shm>,
+    name: FileName,
+    cfg: <Shm as NamedConceptMgmt>::Configuration,
+    chunks: BTreeMap<u64, Chunk>,
+    regs: Vec<BTreeMap<u64, Reg>>,
+    seg_info: HashMap<u8, (usize, usize)>, // seg -> (payload size, bucket size)
+    generation: u64,
+}
+
+fn n(s: &str) -> usize {
+    s.parse().unwrap()
+}
+fn aerr(e: AllocationError) -> &'static str {
+    match e {
+        AllocationError::SizeIsZero => "err:zero",
+        AllocationError::SizeTooLarge => "err:size",
+        AllocationError::AlignmentFailure => "err:align",
+        AllocationError::OutOfMemory => "err:oom",
+        AllocationError::InternalError => "err:internal",
+    }
+}
+fn gerr(e: AllocationGrowError) -> &'static str {
+    match e {
+        AllocationGrowError::GrowWouldShrink => "err:shrink",
+        AllocationGrowError::SizeIsZero => "err:zero",
+        AllocationGrowError::OutOfMemory => "err:oom",
+        AllocationGrowError::AlignmentFailure => "err:align",
+        AllocationGrowError::InternalError => "err:internal",
+    }
+}
+
+impl<Shm: SharedMemoryForPoolAllocator> World<Shm>
+where
+    Shm::Builder: Debug,
+{
+    fn mk(t: &[&str]) -> Result<Self, String> {
+        let k = COUNTER.fetch_add(1, Ordering::Relaxed);
+        let strategy = match t[1] {
+            "static" => AllocationStrategy::Static,
+            "bestfit" => AllocationStrategy::BestFit,
+            "pow2" => AllocationStrategy::PowerOfTwo,
+            _ => panic!("bad strategy"),
+        };
+        let layout = Layout::from_size_align(n(t[2]), n(t[3])).unwrap();
+        // own prefix: nothing is shared with other users of /dev/shm
+        let prefix = FileName::new(format!("vfr{}_", std::process::id()).as_bytes()).unwrap();
+        let cfg = <Shm as NamedConceptMgmt>::Configuration::default().prefix(&prefix);
+        let name = FileName::new(format!("rs{k}").as_bytes()).unwrap();
+        let mem = <DynamicMemory<PoolAllocator, Shm> as ResizableSharedMemory<PoolAllocator, Shm>>::MemoryBuilder::new(&name)
+            .config(&cfg)
+            .max_chunk_layout_hint(layout)
+            .max_number_of_chunks_hint(n(t[4]))
+            .allocation_strategy(strategy)
+            .create()
+            .map_err(|e| format!("err:alloc:{e:?}"))?;
+        let mut views = vec![];
+        for _ in 0..NVIEWS {
+            let v = <DynamicMemory<PoolAllocator, Shm> as ResizableSharedMemory<PoolAllocator, Shm>>::ViewBuilder::new(&name)
+                .config(&cfg)
+                .open(AccessMode::ReadWrite)
+                .map_err(|e| format!("err:alloc:view:{e:?}"))?;
+            views.push(v);
+        }
+        Ok(World { views, mem, name, cfg, chunks: BTreeMap::new(), regs: (0..NVIEWS).map(|_| BTreeMap::new()).collect(), seg_info: HashMap::new(), generation: 0 })
+    }
+
+    /// independent look at a segment: open it a second time by its name
+    fn segment_info(&mut self, seg: u8) -> Option<(usize, usize)> {
+        if let Some(i) = self.seg_info.get(&seg) {
+            return Some(*i);
+        }
+        let mut nm = self.name;
+        nm.push_bytes(b"__").unwrap();
+        nm.push_bytes(seg.to_string().as_bytes()).unwrap();
+        let shm = Shm::Builder::new(&nm).config(&self.cfg).has_ownership(false).open(AccessMode::Read).ok()?;
+        let i = (shm.size(), shm.bucket_size());
+        self.seg_info.insert(seg, i);
+        Some(i)
+    }
+
+    fn check_fresh(&mut self, label: u64, p: ShmPointer, size: usize, align: usize) {
+        let addr = p.data_ptr as usize;
+        let seg = p.offset.segment_id().value();
+        let off = p.offset.offset();
+        if addr % align != 0 {
+            oracle_fail(format!("misaligned: chunk {label} for alignment {align}"));
+        }
+        match self.segment_info(seg) {
+            None => oracle_fail(format!("segment-missing: segment {seg} of a fresh allocation cannot be opened")),
+            Some((payload, bucket)) => {
+                if off + size > payload {
+                    oracle_fail(format!("out-of-bounds: offset {off} + {size} exceeds the payload {payload} of segment {seg}"));
+                }
+                if bucket == 0 || off % bucket != 0 || size > bucket {
+                    oracle_fail(format!("bucket: offset {off} size {size} does not fit a bucket of {bucket} in segment {seg}"));
+                }
+            }
+        }
+        for (l, c) in &self.chunks {
+            if *l == label || !c.live {
+                continue;
+            }
+            let a = c.ptr.data_ptr as usize;
+            // zero-sized chunks still own their bucket start
+            if addr < a + c.size.max(1) && a < addr + size.max(1) {
+                oracle_fail(format!("overlap: chunk {label} with live chunk {l}"));
+            }
+            if c.ptr.offset == p.offset {
+                oracle_fail(format!("overlap: same offset as live chunk {l}"));
+            }
+        }
+    }
+
+    /// the canaries: owner side and every view
+    fn check_canaries(&self) {
+        for (l, c) in &self.chunks {
+            if !c.live {
+                continue;
+            }
+            if let Some(b) = c.fill {
+                let s = unsafe { std::slice::from_raw_parts(c.ptr.data_ptr as *const u8, c.size) };
+                if s.iter().any(|x| *x != b) {
+                    oracle_fail(format!("owner-canary: chunk {l} changed"));
+                }
+            }
+        }
+        for (v, regs) in self.regs.iter().enumerate() {
+            for (l, r) in regs {
+                // every registered offset must stay readable (an unmapped segment would fault here)
+                let first = unsafe { std::ptr::read_volatile(r.ptr) };
+                let _ = first;
+                if let Some(c) = self.chunks.get(l) {
+                    if c.live && c.generation == r.generation {
+                        if let Some(b) = c.fill {
+                            let s = unsafe { std::slice::from_raw_parts(r.ptr, c.size) };
+                            if s.iter().any(|x| *x != b) {
+                                oracle_fail(format!("view-canary: chunk {l} differs in view {v}"));
+                            }
+                        }
+                    }
+                }
+            }
+        }
+    }
+
+    fn exec(&mut self, t: &[&str]) -> String {
+        let r = self.exec1(t);
+        self.check_canaries();
+        r
+    }
+
+    fn exec1(&mut self, t: &[&str]) -> String {
+        match t[0] {
+            "alloc" => {
+                let (label, size, align) = (n(t[1]) as u64, n(t[2]), n(t[3]));
+                if self.chunks.get(&label).map(|c| c.live).unwrap_or(false) {
+                    return "dup".into();
+                }
+                let l = Layout::from_size_align(size, align).unwrap();
+                match self.mem.allocate(l) {
+                    Ok(p) => {
+                        self.check_fresh(label, p, size, align);
+                        self.generation += 1;
+                        self.chunks.insert(label, Chunk { ptr: p, size, align, live: true, fill: None, generation: self.generation });
+                        format!("ok:{}:{}", p.offset.segment_id().value(), p.offset.offset())
+                    }
+                    Err(e) => aerr(e).into(),
+                }
+            }
+            "write" => {
+                let (label, b) = (n(t[1]) as u64, n(t[2]) as u8);
+                match self.chunks.get_mut(&label) {
+                    Some(c) if c.live => {
+                        unsafe { std::ptr::write_bytes(c.ptr.data_ptr, b, c.size) };
+                        c.fill = Some(b);
+                        "ok".into()
+                    }
+                    _ => "none".into(),
+                }
+            }
+            "dealloc" => {
+                let label = n(t[1]) as u64;
+                match self.chunks.get_mut(&label) {
+                    Some(c) if c.live => {
+                        c.live = false;
+                        c.fill = None;
+                        // the publisher releases by offset (Sender::release_chunk -> deallocate_bucket)
+                        unsafe { self.mem.deallocate_bucket(c.ptr.offset) };
+                        "ok".into()
+                    }
+                    _ => "none".into(),
+                }
+            }
+            "grow" => {
+                let (label, size, align) = (n(t[1]) as u64, n(t[2]), n(t[3]));
+                let placement = if t[4] == "back" { ContentPlacement::Back } else { ContentPlacement::Front };
+                let (old_ptr, old_size, old_align, old_fill) = match self.chunks.get(&label) {
+                    Some(c) if c.live => (c.ptr, c.size, c.align, c.fill),
+                    _ => return "none".into(),
+                };
+                let old_l = Layout::from_size_align(old_size, old_align).unwrap();
+                let new_l = Layout::from_size_align(size, align).unwrap();
+                let before: Vec<u8> = unsafe { std::slice::from_raw_parts(old_ptr.data_ptr as *const u8, old_size) }.to_vec();
+                match unsafe { self.mem.grow(old_ptr, old_l, new_l, placement) } {
+                    Ok(p) => {
+                        if p.offset != old_ptr.offset {
+                            // a different chunk: it must be a proper fresh allocation
+                            self.chunks.get_mut(&label).unwrap().live = false;
+                            self.check_fresh(label, p, size, align);
+                        } else if p.data_ptr != old_ptr.data_ptr {
+                            oracle_fail(format!("grow: chunk {label} keeps its offset but moved"));
+                        }
+                        let shift = if placement == ContentPlacement::Back { size - old_size } else { 0 };
+                        let now = unsafe { std::slice::from_raw_parts((p.data_ptr as *const u8).add(shift), old_size) };
+                        if now != &before[..] {
+                            oracle_fail(format!("grow-content: chunk {label} lost its content"));
+                        }
+                        self.generation += 1;
+                        let fill = if shift == 0 && size == old_size { old_fill } else { None };
+                        self.chunks.insert(label, Chunk { ptr: p, size, align, live: true, fill, generation: self.generation });
+                        format!("ok:{}:{}", p.offset.segment_id().value(), p.offset.offset())
+                    }
+                    Err(e) => gerr(e).into(),
+                }
+            }
+            "view_register" => {
+                let (v, label) = (n(t[1]), n(t[2]) as u64);
+                if self.regs[v].contains_key(&label) {
+                    return "dup".into();
+                }
+                let (off, generation, live, align) = match self.chunks.get(&label) {
+                    Some(c) => (c.ptr.offset, c.generation, c.live, c.align),
+                    None => return "none".into(),
+                };
+                // DataSegmentView::register_and_translate_offset
+                match unsafe { self.views[v].register_and_translate_offset(off) } {
+                    Ok(p) => {
+                        if live && (p as usize) % align != 0 {
+                            oracle_fail(format!("misaligned: chunk {label} in view {v}"));
+                        }
+                        self.regs[v].insert(label, Reg { ptr: p, off, generation });
+                        "ok".into()
+                    }
+                    Err(e) => format!("err:{e:?}"),
+                }
+            }
+            "view_read" => {
+                let (v, label) = (n(t[1]), n(t[2]) as u64);
+                match self.regs[v].get(&label) {
+                    Some(r) => format!("ok:{}", unsafe { std::ptr::read_volatile(r.ptr) }),
+                    None => "none".into(),
+                }
+            }
+            "view_unregister" => {
+                let (v, label) = (n(t[1]), n(t[2]) as u64);
+                match self.regs[v].remove(&label) {
+                    Some(r) => {
+                        unsafe { self.views[v].unregister_offset(r.off) };
+                        "ok".into()
+                    }
+                    None => "none".into(),
+                }
+            }
+            "segments" => format!("{}", self.mem.number_of_active_segments()),
+            "view_segments" => format!("{}", self.views[n(t[1])].number_of_active_segments()),
+            // experiments only (not canonical): payload start of the segment of a live chunk modulo 4096
+            "probe" => match self.chunks.get(&(n(t[1]) as u64)) {
+                Some(c) => format!("{}", (c.ptr.data_ptr as usize - c.ptr.offset.offset()) % 8192),
+                None => "none".into(),
+            },
+            _ => panic!("bad op"),
+        }
+    }
+}
+
+enum W {
+    None,
+    Posix(World<PShm>),
+    Local(World<LShm>),
+}
+pub struct ResizeComp {
+    w: W,
+}
 impl ResizeComp {
     pub fn new() -> Self {
-        ResizeComp
+        ResizeComp { w: W::None }
     }
 }
 impl Comp for ResizeComp {
-    fn exec(&mut self, _t: &[&str]) -> String {
-        "unimplemented".into()
+    fn exec(&mut self, t: &[&str]) -> String {
+        if t[0] == "new" {
+            self.w = W::None; // drop (and clean up) the previous world first
+            let local = t.get(5).map(|s| *s == "local").unwrap_or(false);
+            let r = if local { World::<LShm>::mk(t).map(W::Local) } else { World::<PShm>::mk(t).map(W::Posix) };
+            return match r {
+                Ok(w) => {
+                    self.w = w;
+                    "ok".into()
+                }
+                Err(e) => e,
+            };
+        }
+        match &mut self.w {
+            W::Posix(w) => w.exec(t),
+            W::Local(w) => w.exec(t),
+            W::None => panic!("no world"),
+        }
     }
 }
+
 pub fn generate(_a: &Args) -> Vec<Vec<String>> {
     vec![]
 }
